@@ -1,6 +1,7 @@
 /* C06 / timer arithmetic: one timer registration through the public wrappers, from a fresh udata (PRE == 0) or on a
  * timer that an earlier tpt_ev_add_args() installed (PRE == 1, re-arm path).
- * Shape: UNIT (0 s, 1 ms, 2 us, 3 ns), PRE.  Symbolic: data (64 bit), flags, ABSTIME bit, add-vs-enable entry point,
+ * Shape: UNIT (0 s, 1 ms, 2 us, 3 ns), PRE, API_EV (1: tpt_ev_add(ev)/tpt_ev_enable(1,ev); 0: the *_args entry points),
+ * optional WIN_BASE/WIN_SIZE (data window, *_args jobs only).  Symbolic: data (64 bit), flags, ABSTIME bit, add-vs-enable entry point,
  * pool CLOEXEC setting, every kernel result (timerfd_create / epoll_ctl / timerfd_settime may fail with any errno).
  *
  * Oracle: with U = unit in ns and S = 10^9 / U, the programmed value is tv_sec == data / S, tv_nsec == (data % S) * U
